@@ -733,6 +733,14 @@ class FuncGraph:
                 and isinstance(s.iter.args[0], ast.Name) and isinstance(s.target, ast.Tuple) and len(s.target.elts) == 2 and isinstance(s.target.elts[1], ast.Name):
             # for k, row in enumerate(X): ... row[d] = v   changes X (see assign): X is carried around this loop and the loops nested in it
             views[s.target.elts[1].id] = s.iter.args[0].id
+        elif kind == 'for' and isinstance(s.iter, ast.Call) and isinstance(s.iter.func, ast.Name) and s.iter.func.id == 'zip' and isinstance(s.target, ast.Tuple) \
+                and len(s.target.elts) == len(s.iter.args) and not s.iter.keywords:
+            # for a_row, b_row in zip(A, B): a_row[...] = v   changes A
+            for tn_, an_ in zip(s.target.elts, s.iter.args):
+                if isinstance(tn_, ast.Name) and isinstance(an_, ast.Name):
+                    views[tn_.id] = an_.id
+        elif kind == 'for' and isinstance(s.iter, ast.Name) and isinstance(s.target, ast.Name):
+            views[s.target.id] = s.iter.id               # for row in X: row[...] = v
         carried = self.assigned_names(s.body)
         if kind == 'for':
             carried |= self.assigned_names([ast.Assign(targets=[s.target], value=ast.Constant(0))])
@@ -999,6 +1007,32 @@ class FuncGraph:
                         names = [k_ for k_, v_ in env.items() if isinstance(k_, str) and root_(v_) is root_(X)]
                         if len(names) == 1:
                             k_index = self.mk('unpack', (b_.args[0], 0, 2, None, None), node)
+                            items_ = tuple(idx.args[0]) if idx.op == 'tuple' else (idx,)
+                            st2 = self.mk('store', (env[names[0]], self.mk('tuple', ((k_index,) + items_,), node), value), node)
+                            self.event('store', st2, node, data=dict(target=env[names[0]], how='subscript-store'))
+                            env[names[0]] = st2
+                            done = True
+                if not done:
+                    # the same through zip(A, B) / `for row in X`: the element of the j-th zipped array is that array at the running index of the loop
+                    X = el_ = None
+                    if b_.op == 'unpack' and b_.args[3] is None and b_.args[0].op == 'elem':
+                        it_ = b_.args[0].args[0]
+                        if it_.op == 'call' and it_.args[0].op == 'ref' and it_.args[0].args[0] == ('builtin', 'zip') and not it_.args[2] and len(it_.args[1]) == b_.args[2] \
+                                and not any(a_.op == 'star' for a_ in it_.args[1]):
+                            X, el_ = it_.args[1][b_.args[1]], b_.args[0]
+                    elif b_.op == 'elem' and isinstance(b_.args[0], T) and not (b_.args[0].op == 'call' and b_.args[0].args[0].op == 'ref'):
+                        X, el_ = b_.args[0], b_
+                    if X is not None and el_.extra is not None:
+                        def root2_(v_):
+                            while isinstance(v_, T) and v_.op == 'mu':
+                                v_ = v_.args[0]
+                            return v_
+                        names = [k_ for k_, v_ in env.items() if isinstance(k_, str) and root2_(v_) is root2_(X)]
+                        if len(names) == 1:
+                            enum_ = self.mk('call', (self.mk('ref', (('builtin', 'enumerate'),), node), (X,), ()), node)
+                            e_el = self.mk('elem', (enum_,), node)
+                            e_el.extra = el_.extra
+                            k_index = self.mk('unpack', (e_el, 0, 2, None, None), node)
                             items_ = tuple(idx.args[0]) if idx.op == 'tuple' else (idx,)
                             st2 = self.mk('store', (env[names[0]], self.mk('tuple', ((k_index,) + items_,), node), value), node)
                             self.event('store', st2, node, data=dict(target=env[names[0]], how='subscript-store'))
